@@ -191,19 +191,20 @@ Definition is_directive (b : byte) : bool :=
   match b with "*" | "_" | "`" | "~" => true | _ => false end%byte.
 Definition is_nl (b : byte) : bool := match b with x0a => true | _ => false end.
 
-Definition start_bits (b : byte) : N * N :=   (* mask |=, clearMask |= *)
-  if byte_eqb b c_star then (N.lor sSpanStrong sSpanStrongStart, sSpanStrongStart)
-  else if byte_eqb b c_under then (N.lor sSpanEmph sSpanEmphStart, sSpanEmphStart)
-  else if byte_eqb b c_tilde then (N.lor sSpanStrike sSpanStrikeStart, sSpanStrikeStart)
-  else if byte_eqb b c_tick then (N.lor sSpanPre sSpanPreStart, sSpanPreStart)
-  else (0, 0)%N.
+Definition sk_style (c : byte) : N :=
+  if byte_eqb c c_star then sSpanStrong else if byte_eqb c c_under then sSpanEmph
+  else if byte_eqb c c_tilde then sSpanStrike else if byte_eqb c c_tick then sSpanPre else 0%N.
+Definition sk_start (c : byte) : N :=
+  if byte_eqb c c_star then sSpanStrongStart else if byte_eqb c c_under then sSpanEmphStart
+  else if byte_eqb c c_tilde then sSpanStrikeStart else if byte_eqb c c_tick then sSpanPreStart else 0%N.
+Definition sk_end (c : byte) : N :=
+  if byte_eqb c c_star then sSpanStrongEnd else if byte_eqb c c_under then sSpanEmphEnd
+  else if byte_eqb c c_tilde then sSpanStrikeEnd else if byte_eqb c c_tick then sSpanPreEnd else 0%N.
 
+Definition start_bits (b : byte) : N * N :=   (* mask |=, clearMask |= *)
+  (N.lor (sk_style b) (sk_start b), sk_start b).
 Definition end_bits (b : byte) : N * N :=
-  if byte_eqb b c_star then (sSpanStrongEnd, N.lor sSpanStrong sSpanStrongEnd)
-  else if byte_eqb b c_under then (sSpanEmphEnd, N.lor sSpanEmph sSpanEmphEnd)
-  else if byte_eqb b c_tilde then (sSpanStrikeEnd, N.lor sSpanStrike sSpanStrikeEnd)
-  else if byte_eqb b c_tick then (sSpanPreEnd, N.lor sSpanPre sSpanPreEnd)
-  else (0, 0)%N.
+  (sk_end b, N.lor (sk_style b) (sk_end b)).
 
 Definition top_is (d : level) (b : byte) : bool :=
   match l_stack d with top :: _ => byte_eqb b top | [] => false end.
@@ -587,62 +588,60 @@ Definition ref_decode := ref_decode_lim limit.
 
 (* ------------------------------------------------------------ the bracket discipline, on observables *)
 
-Definition span_kinds : list (N * N * N) :=   (* style, start, end *)
-  [(sSpanEmph, sSpanEmphStart, sSpanEmphEnd); (sSpanStrong, sSpanStrongStart, sSpanStrongEnd);
-   (sSpanStrike, sSpanStrikeStart, sSpanStrikeEnd); (sSpanPre, sSpanPreStart, sSpanPreEnd)].
-Definition block_kinds : list (N * N * N) :=
-  [(sBlockPre, sBlockPreStart, sBlockPreEnd); (sBlockQuote, sBlockQuoteStart, sBlockQuoteEnd)].
+Definition span_chars : bytes := [c_under; c_star; c_tilde; c_tick].
+
+Definition dir_triples : list (N * N * N) :=   (* style, start, end *)
+  map (fun c => (sk_style c, sk_start c, sk_end c)) span_chars
+  ++ [(sBlockPre, sBlockPreStart, sBlockPreEnd); (sBlockQuote, sBlockQuoteStart, sBlockQuoteEnd)].
 
 Definition anyb (m b : N) : bool := negb (N.land m b =? 0)%N.
 
 (* a start or end directive bit implies its style bit *)
 Definition dir_implies_style (m : N) : bool :=
   forallb (fun k => let '(s, a, e) := k in
-                    (negb (anyb m a) || anyb m s) && (negb (anyb m e) || anyb m s))
-          (span_kinds ++ block_kinds).
+                    implb (anyb m a) (anyb m s) && implb (anyb m e) (anyb m s)) dir_triples.
 
-Definition all_start : N :=
-  fold_right N.lor 0%N (map (fun k => snd (fst k)) (span_kinds ++ block_kinds)).
-Definition span_style_bits : N := fold_right N.lor 0%N (map (fun k => fst (fst k)) span_kinds).
-Definition span_dir_bits : N :=
-  fold_right N.lor 0%N (map (fun k => N.lor (snd (fst k)) (snd k)) span_kinds).
+Definition any_start (m : N) : bool :=
+  existsb (fun k => let '(s, a, e) := k in anyb m a) dir_triples.
 
-Definition stack_bits (st : list N) : N := fold_right N.lor 0%N st.
+(* the span style bits of the mask are exactly the open spans *)
+Definition spans_match (m : N) (st : bytes) : bool :=
+  forallb (fun c => Bool.eqb (anyb m (sk_style c)) (in_bytes c st)) span_chars.
 
 Definition has_nl (s : bytes) : bool := existsb is_nl s.
 
-(* [st]: style bits of the open spans, innermost first.  Each token carries at
-   most one span directive; a start pushes (never inside a pre span, where no
-   directive of any kind may start), an end must close the innermost open span;
-   the span style bits of every token are exactly the open spans; no token
-   inside a span contains a line break; the stack is empty at the end. *)
-Fixpoint brackets_from (st : list N) (os : list obs) : option (list N) :=
+(* One token against the stack [st] of open spans (directive characters,
+   innermost first).  Each token carries at most one span directive; a start
+   pushes (never inside a pre span, where no directive of any kind may start,
+   and never a kind that is already open), an end must close the innermost open
+   span; the span style bits of every token are exactly the open spans; no
+   token inside a span contains a line break. *)
+Definition bstep (st : bytes) (m : N) (t : bytes) : option bytes :=
+  if dir_implies_style m
+     && (is_nil st || negb (has_nl t))
+     && (negb (in_bytes c_tick st) || negb (any_start m))
+  then
+    match filter (fun c => anyb m (sk_start c)) span_chars,
+          filter (fun c => anyb m (sk_end c)) span_chars with
+    | [], [] => if spans_match m st then Some st else None
+    | [c], [] => if negb (in_bytes c st) && spans_match m (c :: st) then Some (c :: st) else None
+    | [], [c] =>
+        match st with
+        | top :: st' => if byte_eqb top c && spans_match m st then Some st' else None
+        | [] => None
+        end
+    | _, _ => None
+    end
+  else None.
+
+Fixpoint brackets_from (st : bytes) (os : list obs) : option bytes :=
   match os with
   | [] => Some st
   | o :: rest =>
-      let m := o_style o in
-      let starts := filter (fun k => anyb m (snd (fst k))) span_kinds in
-      let ends := filter (fun k => anyb m (snd k)) span_kinds in
-      if dir_implies_style m &&
-         (is_nil st || negb (has_nl (o_data o))) &&
-         (negb (existsb (N.eqb sSpanPre) st) || negb (anyb m all_start))
-      then
-        match starts, ends with
-        | [], [] =>
-            if (N.land m span_style_bits =? stack_bits st)%N then brackets_from st rest else None
-        | [(s, _, _)], [] =>
-            if negb (existsb (N.eqb s) st) && (N.land m span_style_bits =? stack_bits (s :: st))%N
-            then brackets_from (s :: st) rest else None
-        | [], [(s, _, _)] =>
-            match st with
-            | top :: st' =>
-                if (top =? s)%N && (N.land m span_style_bits =? stack_bits st)%N
-                then brackets_from st' rest else None
-            | [] => None
-            end
-        | _, _ => None
-        end
-      else None
+      match bstep st (o_style o) (o_data o) with
+      | Some st' => brackets_from st' rest
+      | None => None
+      end
   end.
 
 (* all spans are closed at the end, unless the input was cut by ErrTooLong *)
@@ -737,6 +736,7 @@ Definition dcase_ok (c : dcase) : bool :=
   let want := expand (d2_doc c) (d2_toks c) in
   (let '(got, e) := decode (d2_doc c) (d2_reads c) (d2_deof c) in
    obs_list_eqb got want && endst_eqb e (d2_end c))
+  && brackets_ok want (d2_end c)
   && (if d2_ref c
       then let '(got, e) := ref_decode (d2_doc c) in
            obs_list_eqb got want && endst_eqb e (d2_end c)
